@@ -5,6 +5,7 @@
 use super::Context;
 use crate::ast::{BinOpExpr, BinOpType, Def, DefEntry, Defs, Expr, UnaryOpExpr, UnaryOpType};
 use crate::output::DocString;
+use crate::parsing::formula;
 use crate::runtime::{Properties, Property, Substance, Value};
 use crate::types::{BaseUnit, Dimensionality, Number, Numeric};
 use std::collections::{BTreeMap, BTreeSet};
@@ -43,6 +44,8 @@ struct Resolver {
     input: BTreeMap<Id, Rc<Def>>,
     /// Long names of base units, which are a second name for the same definition.
     long_names: BTreeMap<Id, Id>,
+    /// Symbols of substances, which chemical formulas are made of.
+    symbols: BTreeMap<String, Id>,
     sorted: Vec<Id>,
     unmarked: BTreeSet<Id>,
     temp_marks: BTreeSet<Id>,
@@ -100,12 +103,31 @@ impl Resolver {
         })
     }
 
+    /// A chemical formula depends on the substances its symbols stand for.
+    fn lookup_formula(&mut self, name: &str) -> bool {
+        let substances = formula::symbols(name).and_then(|symbols| {
+            symbols
+                .iter()
+                .map(|symbol| self.symbols.get(symbol).cloned())
+                .collect::<Option<Vec<Id>>>()
+        });
+        if let Some(substances) = substances {
+            for id in substances {
+                self.visit(&id);
+            }
+            true
+        } else {
+            false
+        }
+    }
+
     fn lookup(&mut self, name: &Rc<String>, context: Namespace) -> bool {
         self.lookup_with_prefix(name, context)
             || name.ends_with('s') && {
                 let name = &Rc::new(name[0..name.len() - 1].to_owned());
                 self.lookup_with_prefix(name, context)
             }
+            || self.lookup_formula(name)
     }
 
     fn eval(&mut self, expr: &Expr, context: Namespace) {
@@ -303,6 +325,7 @@ pub(crate) fn load_defs(ctx: &mut Context, defs: Defs) -> Vec<String> {
         interned: BTreeSet::new(),
         input: BTreeMap::new(),
         long_names: BTreeMap::new(),
+        symbols: BTreeMap::new(),
         sorted: vec![],
         unmarked: BTreeSet::new(),
         temp_marks: BTreeSet::new(),
@@ -362,6 +385,13 @@ pub(crate) fn load_defs(ctx: &mut Context, defs: Defs) -> Vec<String> {
             if long_name != id {
                 resolver.long_names.insert(long_name, id.clone());
             }
+        }
+        if let Def::Substance {
+            symbol: Some(ref symbol),
+            ..
+        } = *def
+        {
+            resolver.symbols.insert(symbol.clone(), id.clone());
         }
         if let Some(doc) = doc {
             resolver.docs.insert(id.clone(), doc);
